@@ -108,6 +108,73 @@ def loadRom (f : RomFile) : Outcome :=
         -- get_rom_buffer(rom_file, rom_size) = mmap(NULL, rom_size, …, fd, 0): `rom.len() = rom_size`
         .accepted { kind := k, romBanks := romBankCount h, mappedLen := romSizeBytes h, ramBytes := ramSizeBytes h }
 
+/-! ### the title in the `Loading "<title>"` line
+
+`Header::get_title` = `String::from_utf8_lossy(&self.title)` with the trailing NUL characters trimmed.  The title bytes
+are whatever the file holds; `from_utf8_lossy` copies well-formed UTF-8 and puts U+FFFD (EF BF BD) for every maximal
+ill-formed subpart (Unicode, Table 3-7: the lead byte decides which second bytes are allowed). -/
+
+def isCont (b : Nat) : Bool := 0x80 ≤ b && b ≤ 0xbf
+
+/-- second byte allowed after the lead byte of a three- or four-byte sequence -/
+def secondOk (b0 b1 : Nat) : Bool :=
+  if b0 == 0xe0 then 0xa0 ≤ b1 && b1 ≤ 0xbf
+  else if b0 == 0xed then 0x80 ≤ b1 && b1 ≤ 0x9f
+  else if b0 == 0xf0 then 0x90 ≤ b1 && b1 ≤ 0xbf
+  else if b0 == 0xf4 then 0x80 ≤ b1 && b1 ≤ 0x8f
+  else isCont b1
+
+def replacement : List Nat := [0xef, 0xbf, 0xbd]
+
+/-- the first chunk `from_utf8_lossy` produces from a non-empty byte list: what it emits and how many input bytes that
+accounts for (a well-formed sequence is copied; a maximal ill-formed subpart becomes one U+FFFD) -/
+def decodeOne (b0 : Nat) (rest : List Nat) : List Nat × Nat :=
+  if b0 < 0x80 then ([b0], 1)
+  else if 0xc2 ≤ b0 && b0 ≤ 0xdf then
+    match rest with
+    | b1 :: _ => if isCont b1 then ([b0, b1], 2) else (replacement, 1)
+    | [] => (replacement, 1)
+  else if 0xe0 ≤ b0 && b0 ≤ 0xef then
+    match rest with
+    | b1 :: r2 =>
+      if secondOk b0 b1 then
+        match r2 with
+        | b2 :: _ => if isCont b2 then ([b0, b1, b2], 3) else (replacement, 2)
+        | [] => (replacement, 2)
+      else (replacement, 1)
+    | [] => (replacement, 1)
+  else if 0xf0 ≤ b0 && b0 ≤ 0xf4 then
+    match rest with
+    | b1 :: r2 =>
+      if secondOk b0 b1 then
+        match r2 with
+        | b2 :: r3 =>
+          if isCont b2 then
+            match r3 with
+            | b3 :: _ => if isCont b3 then ([b0, b1, b2, b3], 4) else (replacement, 3)
+            | [] => (replacement, 3)
+          else (replacement, 2)
+        | [] => (replacement, 2)
+      else (replacement, 1)
+    | [] => (replacement, 1)
+  else (replacement, 1)
+
+/-- `String::from_utf8_lossy` on a byte list, as bytes (`fuel` ≥ the length of the list) -/
+def lossyAux : Nat → List Nat → List Nat
+  | 0, _ => []
+  | fuel+1, l =>
+    match l with
+    | [] => []
+    | b0 :: rest => (decodeOne b0 rest).1 ++ lossyAux fuel (rest.drop ((decodeOne b0 rest).2 - 1))
+
+def utf8Lossy (l : List Nat) : List Nat := lossyAux l.length l
+
+def trimNul (l : List Nat) : List Nat := (l.reverse.dropWhile (· == 0)).reverse
+
+/-- the bytes `get_title()` returns for this header -/
+def titleText (h : Header) : List Nat := trimNul (utf8Lossy ((List.range 11).map fun i => h.byte (0x34 + i)))
+
+
 /-- the index into `rom` that `memory_read_byte` forms for a CPU address below 0x8000 when the
 cartridge state reports ROM bank `bank` (src/mem.rs) -/
 def busRomIndex (bank addr : Nat) : Nat :=
